@@ -1,5 +1,6 @@
 CONSTANTS
   MaxLen = 3
+  Mode = "all"
 INIT Init
 NEXT Next
 INVARIANT Props
